@@ -46,23 +46,34 @@ def preprocesses():
     def cumsum(traces):
         # not sample-wise: every output sample mixes the samples to its left (frame selection must come first)
         return np.cumsum(traces, axis=1)
-    return {'plus1': plus1, 'twice': twice, 'square': scared.preprocesses.square, 'cumsum': cumsum}
+    @scared.preprocess
+    def lowerhalf(traces):
+        # real-valued output, negative for a zero sample: (x - 1) / 2 (in the specification: minus1, the harness halves the integer feed)
+        return (traces - 1) / 2.0
+    return {'plus1': plus1, 'twice': twice, 'square': scared.preprocesses.square, 'cumsum': cumsum, 'lowerhalf': lowerhalf}
 
 
 FRAMES = {'all': None, 'ellipsis': ..., 'slice': slice(1, 5), 'step': slice(0, 6, 2), 'list': [0, 3, 4], 'array': np.array([5, 1, 2])}
-CHAINS = [[], ['square'], ['plus1', 'twice'], ['twice', 'plus1'], ['square', 'plus1'], ['cumsum'], ['plus1', 'cumsum']]
+CHAINS = [[], ['square'], ['plus1', 'twice'], ['twice', 'plus1'], ['square', 'plus1'], ['cumsum'], ['plus1', 'cumsum'], ['lowerhalf'], ['twice', 'lowerhalf']]
 KINDS = ['CPA', 'DPA', 'ANOVA', 'NICV', 'SNR', 'MIA']
 
 
-def selection(mode):
+def selection(mode, layout='C'):
+    """layout 'T': the attack function builds its output guess-major and returns a transposed view (not C-contiguous), the way the
+    ready-made selection functions do; the values are the same"""
     import scared
     if mode == 'attack':
         @scared.attack_selection_function(guesses=range(NG))
         def sf(v, guesses):
+            if layout == 'T':
+                buf = np.empty((len(guesses), v.shape[0], v.shape[1]), dtype='uint8')
+                for g in guesses:
+                    buf[g] = (v + g) % 9
+                return buf.swapaxes(0, 1)
             out = np.empty((v.shape[0], len(guesses), v.shape[1]), dtype='uint8')
             for g in guesses:
                 out[:, g, :] = (v + g) % 9
-            return out
+            return np.asfortranarray(out) if layout == 'F' else out      # 'F': Fortran-contiguous, as fancy indexing of the words axis yields
         return sf
 
     @scared.reverse_selection_function
@@ -71,10 +82,10 @@ def selection(mode):
     return rsf
 
 
-def build(kind, mode, precision, convergence_step=None):
+def build(kind, mode, precision, convergence_step=None, layout='C'):
     """(analysis object, factory of the matching standalone distinguisher)"""
     import scared
-    sf = selection(mode)
+    sf = selection(mode, layout)
     model = {'CPA': scared.HammingWeight(), 'DPA': scared.Monobit(0)}.get(kind, scared.Value())
     kw = {}
     dkw = {}
